@@ -44,6 +44,34 @@ def _table(test, lhs, rhs):
     return order_table(test, lhs, rhs)
 
 
+def memo_rule(ctx: Ctx, rid: str):
+    """Memo-key soundness in everything reachable from available()/onShift() (C02 R02.8 / C08 R08.9)."""
+    repo = ctx.repo
+    avail = repo.func("ResourceScenario.available")
+    onshift = repo.func("ResourceScenario.onShift")
+    from ..memo import control_ok, memo_findings
+    if not control_ok():
+        raise AnchorMissing("memo-key rule: built-in control sample no longer matches")
+    scope = sorted(ctx.cg.reach([avail, onshift]), key=lambda f: f.key)
+    nmemo = 0
+    for fn in scope:
+        if not isinstance(fn.node, (ast.FunctionDef, ast.AsyncFunctionDef)):
+            continue
+        found = memo_findings(fn.node)
+        nmemo += 1
+        by_store = {}
+        for cont, key, p, st in found:
+            by_store.setdefault((cont, norm(key)), (st, []))[1].append(p)
+        for (cont, k), (st, lost) in sorted(by_store.items()):
+            ctx.ob(rid, f"{fn.qual}: entry {cont}[{k}]", (fn, st), False,
+                   f"a value computed from {', '.join(lost)} is stored under a key that does not contain {', '.join(lost)} itself "
+                   f"(only a projection of it, or nothing): later calls with a different {lost[0]} that maps to the same key are "
+                   "answered with the first call's value",
+                   key=key_of(rid, fn, None, f"{cont} lost {','.join(lost)}"))
+    ctx.ob(rid, f"memo-key soundness over {nmemo} functions reachable from available()/onShift()", avail, True,
+           "no container entry is keyed by less than the parameters its value was computed from", nontrivial=False)
+
+
 def run(ctx: Ctx):
     repo = ctx.repo
     avail = repo.func("ResourceScenario.available")
@@ -277,27 +305,7 @@ def run(ctx: Ctx):
                    "weekday / minute of the slot are not taken from the zone-converted time",
                    key=key_of("R02.6", wh, n))
     # ---------------------------------------------------------------- R02.8 memo-key soundness in the calendar decision
-    from ..memo import control_ok, memo_findings
-    if not control_ok():
-        raise AnchorMissing("memo-key rule: built-in control sample no longer matches")
-    scope = sorted(ctx.cg.reach([avail, onshift]), key=lambda f: f.key)
-    nmemo = 0
-    for fn in scope:
-        if not isinstance(fn.node, (ast.FunctionDef, ast.AsyncFunctionDef)):
-            continue
-        found = memo_findings(fn.node)
-        nmemo += 1
-        by_store = {}
-        for cont, key, p, st in found:
-            by_store.setdefault((cont, norm(key)), (st, []))[1].append(p)
-        for (cont, k), (st, lost) in sorted(by_store.items()):
-            ctx.ob("R02.8", f"{fn.qual}: entry {cont}[{k}]", (fn, st), False,
-                   f"a value computed from {', '.join(lost)} is stored under a key that does not contain {', '.join(lost)} itself "
-                   f"(only a projection of it, or nothing): later calls with a different {lost[0]} that maps to the same key are "
-                   "answered with the first call's value",
-                   key=key_of("R02.8", fn, None, f"{cont} lost {','.join(lost)}"))
-    ctx.ob("R02.8", f"memo-key soundness over {nmemo} functions reachable from available()/onShift()", avail, True,
-           "no container entry is keyed by less than the parameters its value was computed from", nontrivial=False)
+    memo_rule(ctx, "R02.8")
     # ---------------------------------------------------------------- R02.7 blocked scoreboard entries (shared with C01 R01.5)
     # a scoreboard entry that is not None (leave / vacation marker or another task) is offered only after a partial release
     from .c01 import partial_reoffer_rule
